@@ -27,10 +27,16 @@ RULE = ('Every NaN mask of the n_cond*(n_cond-1)/2 entries leaving >= 3 entries 
         'vector with a repeat through subsample_pattern; every covering of 4 conditions by 2-3 subsets of '
         '>= 2 conditions through from_partials; x every comparison method x sigma_k form x stack shape x '
         'value fill (all of {0,1}^6 plus generic and tied fills).  RDMs.mean: every pair of arbitrary masks '
-        '(64 x 64) and every triple of masks of <= 2 entries x 6 weight forms.  One evaluation = one library '
+        '(64 x 64) and every triple of masks of <= 2 entries x 6 weight forms.  Two-call sequences sharing one '
+        'caller-owned array: RDMs.mean with the same weights array on two stacks (every ordered pair of 16 / 27 '
+        'stack mask configurations x 7 array forms), compare / pool_rdm / fit_regress with the same sigma_k on '
+        'two common masks (every ordered pair of 22 / 11 masks); after EVERY library call every array or RDMs '
+        'argument must be bit-identical (modifies-argument).  One evaluation = one library '
         'call judged against the reference on the entry-deleted vectors (or judged to raise).  Non-trivial = '
         'the measure is defined on the deleted vectors; distinct = distinct case descriptor.')
 ASSUMPTIONS = [
+    'an argument counts as unchanged when its bytes are (ndarray: dtype, shape, buffer; RDMs: the '
+    'dissimilarities buffer; list: repr); descriptor dictionaries of RDMs arguments are C12 business',
     'reference definitions in mc/ref/measures.py and mc/ref/c13_ref.py are correct; the pooling / regression '
     'references are calibrated on NaN-free input in the same run (mask = none cases)',
     'rejection = any raised exception; the exception type is recorded as outcome',
@@ -54,7 +60,9 @@ BOUNDS = {
     'quick': {'n_cond': [4], 'masks': 'all with >= 3 entries left (42)', 'fills': 2,
               'within_stack_third_mask': ['= first', '= second', 'none', 'one mask with the average count'],
               'coverings': 'ordered pairs (63) + unordered triples of distinct subsets (149)',
-              'mean': '2 RDMs: all 64x64 masks; 3 RDMs: masks of <= 2 entries (22^3)'},
+              'mean': '2 RDMs: all 64x64 masks; 3 RDMs: masks of <= 2 entries (22^3)',
+              'sequences': 'mean: 16^2 x 7 + 27^2 x 3 weight forms; compare: 22^2 masks x 12 combos; '
+                           'pool_rdm: 11^2 x 8; fit_regress: 11^2 x 8 (same in both tiers)'},
     'thorough': {'n_cond': [4, 5], 'masks': 'n=4: 42; n=5: <= 3 missing of 10 (176)', 'fills': 3,
                  'within_stack_third_mask': 'n=4: all 42; n=5: first/second/none',
                  'coverings': 'ordered pairs (63) + ordered triples (1081)',
@@ -154,6 +162,50 @@ class _alarm:
         return False
 
 
+def _bits(obj):
+    """bit-level snapshot of a caller-owned argument (ndarray, RDMs object -> its dissimilarities,
+    list of numbers); None for anything else"""
+    if obj is None or isinstance(obj, str):
+        return None
+    if isinstance(obj, np.ndarray):
+        return (str(obj.dtype), obj.shape, obj.tobytes())
+    d = getattr(obj, 'dissimilarities', None)
+    if isinstance(d, np.ndarray):
+        return (str(d.dtype), d.shape, d.tobytes())
+    if isinstance(obj, (list, tuple)):
+        return ('list', len(obj), repr(obj))
+    return None
+
+
+class _watch:
+    """with _watch(ctx, case, tag, weights=W, sigma_k=S, rdm1=X): <library call>
+    afterwards every watched argument must be bit-identical to what the caller handed over
+    (failure kind modifies-argument:<name>), whether the call returned or raised: a routine that
+    writes its NaN bookkeeping into the caller's array silently corrupts the caller's NEXT call."""
+
+    def __init__(self, ctx, case, tag, **args):
+        self.ctx, self.case, self.tag, self.args = ctx, case, tag, args
+
+    def __enter__(self):
+        self.before = {k: _bits(v) for k, v in self.args.items()}
+        return self
+
+    def __exit__(self, et, ev, tb):
+        for k, v in self.args.items():
+            if self.before[k] is not None and _bits(v) != self.before[k]:
+                self.ctx.fail('%s|modifies-argument:%s' % (self.tag, k), self.case,
+                              'the caller\'s %s was changed by the call: now %s' % (k, _short_any(v)))
+        return False
+
+
+def _short_any(v):
+    d = getattr(v, 'dissimilarities', v)
+    try:
+        return np.array2string(np.asarray(d, dtype=float), precision=5, threshold=40)
+    except Exception:
+        return repr(d)[:300]
+
+
 def _chunks(seq, k):
     seq = list(seq)
     return [seq[i:i + k] for i in range(0, len(seq), k)]
@@ -202,12 +254,48 @@ def shards(tier, seed):
     # is then as long as an RDM vector and per-RDM / per-entry forms can be confused)
     for n in (2, 3, 4, 5):
         out.append({'kind': 'meanshape', 'n_cond': n})
+    # sequences of two calls that share one caller-owned array (weights / sigma_k) while the
+    # missing-entry masks differ: every ordered pair from a small menu of masks
+    for n_rdm in (2, 3):
+        ncfg = len(seq_stack_masks(n_rdm))
+        for blk in _chunks(range(ncfg), 9):
+            out.append({'kind': 'meanseq', 'n_rdm': n_rdm, 'first': [blk[0], blk[-1] + 1]})
+    for m, s in COMBOS:
+        out.append({'kind': 'cmpseq', 'method': m, 'sigma': s})
+    for which, m, s in SEQ_POOL:
+        out.append({'kind': 'poolseq', 'which': which, 'method': m, 'sigma': s})
+    for m in FIT_METHODS:
+        for s in ('none', 'matrix'):
+            out.append({'kind': 'fitseq', 'method': m, 'sigma': s})
     # from_partials coverings
     cov = coverings(tier)
     for blk in _chunks(range(len(cov)), 8 if not thorough else 24):
         out.append({'kind': 'partials', 'cov': [blk[0], blk[-1] + 1]})
     out.append({'kind': 'partials_common'})
     return out
+
+
+SEQ_POOL = [('inference', 'cosine', 'none'), ('inference', 'corr', 'none'), ('inference', 'spearman', 'none'),
+            ('fitter', 'cosine', 'none'), ('fitter', 'cosine_cov', 'none'), ('fitter', 'cosine_cov', 'matrix'),
+            ('fitter', 'corr_cov', 'none'), ('fitter', 'corr_cov', 'matrix')]
+SEQ_WKINDS = ['rdm1d', 'rdmcol', 'rdmfull', 'entry', 'entry-int', 'entry-f32', 'name-shared-list']
+
+
+def seq_masks():
+    """the small menu of common masks for the two-call sequences (n_cond = 4): <= 2 of 6 entries"""
+    return [list(m) for m in combi.masks(6, 2)]
+
+
+def seq_masks_small():
+    """11 masks: none, every single entry, four pairs (equal counts at different positions included)"""
+    return [list(m) for m in combi.masks(6, 1)] + [[0, 1], [4, 5], [0, 5], [2, 3]]
+
+
+def seq_stack_masks(n_rdm):
+    """menu of per-stack mask configurations for the RDMs.mean sequences: every assignment of a
+    per-RDM mask from a small menu (2 RDMs: 4 masks -> 16 stacks; 3 RDMs: 3 masks -> 27 stacks)"""
+    menu = [[], [0], [5], [0, 1]] if n_rdm == 2 else [[], [0], [0, 1]]
+    return [list(c) for c in itertools.product(menu, repeat=n_rdm)]
 
 
 def coverings(tier):
@@ -368,6 +456,31 @@ def run_shard(shard, ctx):
             for masks in variants:
                 for w in WKINDS:
                     run_case({'kind': 'mean', 'n_cond': n, 'masks': masks, 'weights': w, 'vals': 'pos0'}, ctx)
+    elif kind == 'meanseq':
+        cfgs = seq_stack_masks(shard['n_rdm'])
+        for a in range(*shard['first']):
+            for b in range(len(cfgs)):
+                for w in (SEQ_WKINDS if shard['n_rdm'] == 2 else SEQ_WKINDS[:1] + SEQ_WKINDS[2:4]):
+                    run_case({'kind': 'meanseq', 'n_cond': 4, 'masks_a': cfgs[a], 'masks_b': cfgs[b],
+                              'weights': w}, ctx)
+    elif kind == 'cmpseq':
+        menu = seq_masks()
+        for i1, m1 in enumerate(menu):
+            for i2, m2 in enumerate(menu):
+                run_case({'kind': 'cmpseq', 'n_cond': 4, 'method': shard['method'], 'sigma': shard['sigma'],
+                          'm1': m1, 'm2': m2, 'rep': 'array' if (i1 + i2) % 2 else 'rdms'}, ctx)
+    elif kind == 'poolseq':
+        menu = seq_masks_small()
+        for m1 in menu:
+            for m2 in menu:
+                run_case({'kind': 'poolseq', 'n_cond': 4, 'which': shard['which'], 'method': shard['method'],
+                          'sigma': shard['sigma'], 'm1': m1, 'm2': m2}, ctx)
+    elif kind == 'fitseq':
+        menu = seq_masks_small()
+        for m1 in menu:
+            for m2 in menu:
+                run_case({'kind': 'fitseq', 'n_cond': 4, 'method': shard['method'], 'sigma': shard['sigma'],
+                          'm1': m1, 'm2': m2}, ctx)
     elif kind == 'partials':
         cov = coverings(tier)
         for ci in range(*shard['cov']):
@@ -434,10 +547,11 @@ def _judge_compare(ctx, case, method, sig_tag, got, Xd, Yd, sigma, keep, tol):
     return nontrivial
 
 
-def _must_raise(ctx, case, sig, fn, what):
+def _must_raise(ctx, case, sig, fn, what, **watched):
     """fn() must raise; returning a value is the violation"""
     try:
-        res = fn()
+        with _watch(ctx, case, sig, **watched):
+            res = fn()
     except _Timeout:
         raise
     except Exception as e:   # rejected: this is the demanded behaviour
@@ -479,7 +593,7 @@ def _mask_class(*masks):
 def run_case(case, ctx):
     kind = case['kind']
     if kind in ('common', 'differ', 'within', 'boot', 'bootdiffer', 'pool', 'nc', 'cvnc', 'fit', 'fitboot',
-                'fitdiffer', 'mean', 'partials', 'partials_common'):
+                'fitdiffer', 'mean', 'partials', 'partials_common', 'meanseq', 'cmpseq', 'poolseq', 'fitseq'):
         return globals()['_case_' + kind](case, ctx)
     # a shard descriptor handed to --replay (escaped exception): run the whole shard
     return run_shard(case.get('shard', case), ctx)
@@ -501,14 +615,16 @@ def _case_common(case, ctx):
     tag = 'method=%s,sigma_k=%s,masks=common' % (method, skind)
     kw = {'sigma_k': sigma} if method in WHITE else {}
     with ctx.guard('compare|' + tag, case):
-        got = compare(_wrap(_with_mask(X, mask), case['rep']), _wrap(_with_mask(Y, mask), case['rep']),
-                      method=method, **kw)
+        a1, a2 = _wrap(_with_mask(X, mask), case['rep']), _wrap(_with_mask(Y, mask), case['rep'])
+        with _watch(ctx, case, 'compare|' + tag, rdm1=a1, rdm2=a2, sigma_k=sigma):
+            got = compare(a1, a2, method=method, **kw)
         nt = _judge_compare(ctx, case, method, tag, got, X[:, keep], Y[:, keep], sigma, (n, keep), tol)
         ctx.case(case, nontrivial=bool(nt))
         # a stack compared with itself must see the same thing (single-stack code path)
         if case['vals'] != 'alpha01':
-            got2 = compare(_wrap(_with_mask(X, mask), case['rep']), _wrap(_with_mask(X, mask), case['rep']),
-                           method=method, **kw)
+            a1 = _wrap(_with_mask(X, mask), case['rep'])
+            with _watch(ctx, case, 'compare|' + tag, rdm1=a1, sigma_k=sigma):
+                got2 = compare(a1, a1, method=method, **kw)
             _judge_compare(ctx, dict(case, self=True), method, tag, got2, X[:, keep], X[:, keep], sigma,
                            (n, keep), tol)
             ctx.case(dict(case, self=True), nontrivial=bool(nt))
@@ -524,9 +640,11 @@ def _case_differ(case, ctx):
     kw = {'sigma_k': _sigma(skind, n, ctx.seed)} if method in WHITE else {}
     ctx.case(case)
     ctx.count('differ:' + _mask_class(case['m1'], case['m2']))
+    a1, a2 = _wrap(X, case['rep']), _wrap(Y, case['rep'])
     _must_raise(ctx, case, 'compare|masks=between-stacks,%s' % _mask_class(case['m1'], case['m2']),
-                lambda: compare(_wrap(X, case['rep']), _wrap(Y, case['rep']), method=method, **kw),
-                'compare(method=%s) of stacks missing entries %s vs %s' % (method, case['m1'], case['m2']))
+                lambda: compare(a1, a2, method=method, **kw),
+                'compare(method=%s) of stacks missing entries %s vs %s' % (method, case['m1'], case['m2']),
+                rdm1=a1, rdm2=a2, sigma_k=kw.get('sigma_k'))
 
 
 def _case_within(case, ctx):
@@ -542,10 +660,12 @@ def _case_within(case, ctx):
     ctx.case(case)
     cls = _mask_class(case['ma'], case['mb'])
     ctx.count('within:' + cls)
+    a1, a2 = _wrap(a, case['rep']), _wrap(b, case['rep'])
     _must_raise(ctx, case, 'compare|masks=within-stack,%s' % cls,
-                lambda: compare(_wrap(a, case['rep']), _wrap(b, case['rep']), method=method, **kw),
+                lambda: compare(a1, a2, method=method, **kw),
                 'compare(method=%s): one stack has RDMs missing %s and %s, the other stack %s'
-                % (method, case['ma'], case['mb'], case['mc']))
+                % (method, case['ma'], case['mb'], case['mc']),
+                rdm1=a1, rdm2=a2, sigma_k=kw.get('sigma_k'))
 
 
 def _boot_objects(ctx, n, n_model, n_data, vals='pos0'):
@@ -579,7 +699,8 @@ def _case_boot(case, ctx):
         m = len(sample)
         sigma = _sigma(skind, m, ctx.seed)
         kw = {'sigma_k': sigma} if method in WHITE else {}
-        got = compare(ms, ds, method=method, **kw)
+        with _watch(ctx, case, 'compare|' + tag, rdm1=ms, rdm2=ds, sigma_k=sigma):
+            got = compare(ms, ds, method=method, **kw)
         nt = _judge_compare(ctx, case, method, tag, got, want_m[:, keep], want_d[:, keep], sigma, (m, keep),
                             _cmp_tol(method, skind))
         ctx.case(case, nontrivial=bool(nt))
@@ -609,19 +730,23 @@ def _case_pool(case, ctx):
     X = _vals(ctx, case['vals'], (n, 51, case['n_rdm']), case['n_rdm'], L)
     skind = case.get('sigma', 'none')
     sigma = _sigma(skind, n, ctx.seed)
+    tag = 'pool_rdm(%s)|method=%s,sigma_k=%s' % (which, method, skind)
     if which == 'inference':
         from rsatoolbox.util.inference_util import pool_rdm
 
         def call(arr):
-            return pool_rdm(RDMs(arr), method=method)
+            obj = RDMs(arr)
+            with _watch(ctx, case, tag, rdms=obj):
+                return pool_rdm(obj, method=method)
         want = R.pool_inference(method, X[:, keep])
     else:
         from rsatoolbox.util.pooling import pool_rdm
 
         def call(arr):
-            return pool_rdm(RDMs(arr), method=method, sigma_k=sigma)
+            obj = RDMs(arr)
+            with _watch(ctx, case, tag, rdms=obj, sigma_k=sigma):
+                return pool_rdm(obj, method=method, sigma_k=sigma)
         want = R.pool_fitter(method, X[:, keep], sigma, (n, keep))
-    tag = 'pool_rdm(%s)|method=%s,sigma_k=%s' % (which, method, skind)
     if skind == 'vector' and not _supported_without_nan(ctx, tag, lambda: call(X.copy())):
         ctx.case(case, nontrivial=False)
         return
@@ -682,7 +807,9 @@ def _case_nc(case, ctx):
         return
     tag = 'boot_noise_ceiling|method=%s' % method
     with ctx.guard(tag, case):
-        got = boot_noise_ceiling(RDMs(_with_mask(X, mask)), method=method)
+        obj = RDMs(_with_mask(X, mask))
+        with _watch(ctx, case, tag, rdms=obj):
+            got = boot_noise_ceiling(obj, method=method)
         ctx.case(case)
         tol = TOL_PLAIN
         for name, g, w in (('lower', got[0], want[0]), ('upper', got[1], want[1])):
@@ -725,8 +852,9 @@ def _case_cvnc(case, ctx):
         rdms = RDMs(X.copy())
         train = rdms.subset('index', [0, 1])
         test_rdms = rdms.subset('index', [2]).subsample_pattern('index', np.array(idx))
-        got = cv_noise_ceiling(rdms, [(train, np.array(idx))], [(test_rdms, np.array(idx))], method=method,
-                               pattern_descriptor='index')
+        with _watch(ctx, case, tag, rdms=rdms, train=train, test=test_rdms):
+            got = cv_noise_ceiling(rdms, [(train, np.array(idx))], [(test_rdms, np.array(idx))], method=method,
+                                   pattern_descriptor='index')
         ctx.case(case)
         for name, g, w in (('lower', got[0], want[0]), ('upper', got[1], want[1])):
             ctx.dev(tag, reldev(g, w))
@@ -763,8 +891,10 @@ def _case_fit(case, ctx):
     tag = 'fit_regress|method=%s,sigma_k=%s' % (method, skind)
 
     def call(m_arr, d_arr):
-        return fit_regress(ModelWeighted('m', RDMs(m_arr)), RDMs(d_arr), method=method, sigma_k=sigma,
-                           ridge_weight=case['ridge'])
+        mo, do = RDMs(m_arr), RDMs(d_arr)
+        model = ModelWeighted('m', mo)
+        with _watch(ctx, case, tag, model_rdms=mo, model_vectors=model.rdm, data=do, sigma_k=sigma):
+            return fit_regress(model, do, method=method, sigma_k=sigma, ridge_weight=case['ridge'])
     if skind == 'vector' and method in WHITE and not _supported_without_nan(ctx, tag, lambda: call(Xm.copy(), Xd.copy())):
         ctx.case(case, nontrivial=False)
         return
@@ -809,8 +939,10 @@ def _case_fitboot(case, ctx):
         return
     with ctx.guard(tag, case):
         ds = data.subsample_pattern('index', np.array(idx))
-        got = fit_regress(ModelWeighted('m', model), ds, method=method, pattern_idx=np.array(idx),
-                          pattern_descriptor='index', sigma_k=sigma)
+        mod = ModelWeighted('m', model)
+        with _watch(ctx, case, tag, model_rdms=model, model_vectors=mod.rdm, data=ds, sigma_k=sigma):
+            got = fit_regress(mod, ds, method=method, pattern_idx=np.array(idx),
+                              pattern_descriptor='index', sigma_k=sigma)
         ctx.case(case)
         _judge_theta(ctx, case, tag, got, want, TOL_FIT_CG if method in WHITE else 1e-7)
 
@@ -823,11 +955,12 @@ def _case_fitdiffer(case, ctx):
     L = combi.n_pairs(n)
     Xm = _with_mask(_fill(ctx.seed, (n, 81), 2, L, 'pos'), case['m1'])
     Xd = _with_mask(_fill(ctx.seed, (n, 82), 2, L, 'pos'), case['m2'])
+    mo, do = RDMs(Xm), RDMs(Xd)
     ctx.case(case)
     _must_raise(ctx, case, 'fit_regress|masks=model-vs-data,%s' % _mask_class(case['m1'], case['m2']),
-                lambda: fit_regress(ModelWeighted('m', RDMs(Xm)), RDMs(Xd), method=method),
+                lambda: fit_regress(ModelWeighted('m', mo), do, method=method),
                 'fit_regress(method=%s) with model RDMs missing %s and data RDMs missing %s'
-                % (method, case['m1'], case['m2']))
+                % (method, case['m1'], case['m2']), model_rdms=mo, data=do)
 
 
 def _weights(ctx, wkind, n_rdm, L, key):
@@ -893,8 +1026,138 @@ def _case_mean(case, ctx):
     tag = 'RDMs.mean|weights=%s' % WCLASS[case['weights']]
     with ctx.guard(tag, case):
         ctx.case(case, nontrivial=bool(np.isnan(D).any()))
-        got = RDMs(D.copy(), rdm_descriptors=desc).mean(warg).dissimilarities
+        obj = RDMs(D.copy(), rdm_descriptors=desc)
+        with _watch(ctx, case, tag, weights=warg, rdms=obj, descriptor=obj.rdm_descriptors.get('w')):
+            got = obj.mean(warg).dissimilarities
         _judge_mean(ctx, case, tag, got, D, wref)
+
+
+def _case_meanseq(case, ctx):
+    """two averages that share ONE caller-owned weights array: stack A (masks_a), then stack B
+    (masks_b).  Both results are judged against the reference with the weights as the caller made
+    them; the array must come back bit-identical from each call."""
+    from rsatoolbox.rdm import RDMs
+    n = case['n_cond']
+    L = combi.n_pairs(n)
+    n_rdm = len(case['masks_a'])
+    wk = case['weights']
+    base = {'entry-int': 'entry', 'entry-f32': 'entry', 'name-shared-list': 'name'}.get(wk, wk)
+    warg, wref, desc = _weights(ctx, base, n_rdm, L, (n, n_rdm, 13))
+    if wk == 'entry-int':
+        warg = np.round(warg * 4).astype(int)     # weights as counts
+        wref = warg.astype(float).tolist()
+    elif wk == 'entry-f32':
+        warg = warg.astype(np.float32)
+        wref = warg.astype(float).tolist()
+    shared_list = desc['w']
+    pristine = _bits(warg)
+    cls = WCLASS[base]
+    for step, masks in (('first', case['masks_a']), ('second', case['masks_b'])):
+        D = _vals(ctx, 'pos0', (n, 95, n_rdm, step == 'second'), n_rdm, L)
+        for r, m in enumerate(masks):
+            if len(m):
+                D[r, list(m)] = np.nan
+        tag = 'RDMs.mean|weights=%s' % cls + ('' if step == 'first' else ',array-used-before')
+        sub = dict(case, step=step)
+        with ctx.guard(tag, sub):
+            ctx.case(sub, nontrivial=bool(np.isnan(D).any()))
+            # the SAME list object is handed to both stacks for the descriptor form
+            obj = RDMs(D.copy(), rdm_descriptors={'w': shared_list} if wk == 'name-shared-list' else desc)
+            with _watch(ctx, sub, 'RDMs.mean|weights=%s' % cls, weights=warg, rdms=obj,
+                        descriptor=shared_list if wk == 'name-shared-list' else None):
+                got = obj.mean(warg).dissimilarities
+            _judge_mean(ctx, sub, tag, got, D, wref)
+    if pristine is not None and _bits(warg) != pristine:
+        ctx.count('meanseq:weights-array-changed')
+
+
+def _case_cmpseq(case, ctx):
+    """two comparisons with different common masks that share one sigma_k array (and run back to
+    back in one process: anything the library remembers from the first must not leak)"""
+    from rsatoolbox.rdm import compare
+    n, method, skind = case['n_cond'], case['method'], case['sigma']
+    L = combi.n_pairs(n)
+    sigma = _sigma(skind, n, ctx.seed)
+    sigma_ref = None if sigma is None else sigma.copy()
+    kw = {'sigma_k': sigma} if method in WHITE else {}
+    tol = _cmp_tol(method, skind)
+    for step, mask in (('first', case['m1']), ('second', case['m2'])):
+        keep = _keep(L, mask)
+        X = _fill(ctx.seed, (n, 111, step == 'second'), 2, L, 'gen')
+        Y = _fill(ctx.seed, (n, 112, step == 'second'), 2, L, 'gen')
+        tag = 'method=%s,sigma_k=%s,masks=common' % (method, skind) + ('' if step == 'first' else ',second-call')
+        sub = dict(case, step=step)
+        with ctx.guard('compare|' + tag, sub):
+            a1, a2 = _wrap(_with_mask(X, mask), case['rep']), _wrap(_with_mask(Y, mask), case['rep'])
+            with _watch(ctx, sub, 'compare|method=%s,sigma_k=%s,masks=common' % (method, skind),
+                        rdm1=a1, rdm2=a2, sigma_k=sigma):
+                got = compare(a1, a2, method=method, **kw)
+            nt = _judge_compare(ctx, sub, method, tag, got, X[:, keep], Y[:, keep], sigma_ref, (n, keep), tol)
+            ctx.case(sub, nontrivial=bool(nt))
+
+
+def _case_poolseq(case, ctx):
+    from rsatoolbox.rdm import RDMs
+    n, method, which, skind = case['n_cond'], case['method'], case['which'], case['sigma']
+    L = combi.n_pairs(n)
+    sigma = _sigma(skind, n, ctx.seed)
+    sigma_ref = None if sigma is None else sigma.copy()
+    if which == 'inference':
+        from rsatoolbox.util.inference_util import pool_rdm
+    else:
+        from rsatoolbox.util.pooling import pool_rdm
+    base = 'pool_rdm(%s)|method=%s,sigma_k=%s' % (which, method, skind)
+    for step, mask in (('first', case['m1']), ('second', case['m2'])):
+        keep = _keep(L, mask)
+        X = _fill(ctx.seed, (n, 121, step == 'second'), 2, L, 'pos')
+        want = R.pool_inference(method, X[:, keep]) if which == 'inference' else \
+            R.pool_fitter(method, X[:, keep], sigma_ref, (n, keep))
+        tag = base + ('' if step == 'first' else ',second-call')
+        sub = dict(case, step=step)
+        with ctx.guard(tag, sub):
+            obj = RDMs(_with_mask(X, mask))
+            with _watch(ctx, sub, base, rdms=obj, sigma_k=sigma):
+                got = pool_rdm(obj, method=method) if which == 'inference' else \
+                    pool_rdm(obj, method=method, sigma_k=sigma)
+            ctx.case(sub)
+            full = np.full(L, np.nan)
+            full[keep] = want
+            got = np.asarray(got.dissimilarities, float)
+            tol = TOL_FIT_CG if (which == 'fitter' and method in WHITE) else TOL_PLAIN
+            if got.shape != (1, L) or not np.array_equal(np.isnan(got[0]), np.isnan(full)):
+                ctx.fail(tag + '|missing-pattern-changed', sub, 'pooled %s, common mask %s' % (got.tolist(), mask))
+            elif maxreldev(got[0], full) > tol:
+                ctx.fail(tag + '|value-mismatch', sub, 'pooled %s, reference on entry-deleted vectors %s (mask %s)'
+                         % (got[0].tolist(), full.tolist(), mask))
+
+
+def _case_fitseq(case, ctx):
+    from rsatoolbox.rdm import RDMs
+    from rsatoolbox.model import ModelWeighted
+    from rsatoolbox.model.fitter import fit_regress
+    n, method, skind = case['n_cond'], case['method'], case['sigma']
+    L = combi.n_pairs(n)
+    sigma = _sigma(skind, n, ctx.seed)
+    sigma_ref = None if sigma is None else sigma.copy()
+    base = 'fit_regress|method=%s,sigma_k=%s' % (method, skind)
+    for step, mask in (('first', case['m1']), ('second', case['m2'])):
+        keep = _keep(L, mask)
+        Xm = _fill(ctx.seed, (n, 131, step == 'second'), 2, L, 'pos')
+        Xd = _fill(ctx.seed, (n, 132, step == 'second'), 2, L, 'pos')
+        want = R.regress(method, Xm[:, keep], Xd[:, keep], sigma_ref, (n, keep), 0.0)
+        sub = dict(case, step=step)
+        if want is None:
+            ctx.exclude('regression undefined / singular on the deleted vectors')
+            ctx.case(sub, nontrivial=False)
+            continue
+        tag = base + ('' if step == 'first' else ',second-call')
+        with ctx.guard(tag, sub):
+            mo, do = RDMs(_with_mask(Xm, mask)), RDMs(_with_mask(Xd, mask))
+            model = ModelWeighted('m', mo)
+            with _watch(ctx, sub, base, model_rdms=mo, model_vectors=model.rdm, data=do, sigma_k=sigma):
+                got = fit_regress(model, do, method=method, sigma_k=sigma)
+            ctx.case(sub)
+            _judge_theta(ctx, sub, tag, got, want, TOL_FIT_CG if method in WHITE else 1e-7)
 
 
 def _partial_objects(ctx, case, proportional):
@@ -969,7 +1232,8 @@ def _case_partials(case, ctx):
         tag = 'RDMs.mean|weights=%s' % WCLASS[case['weights']]
         with ctx.guard(tag, case):
             ctx.case(case)
-            got = fp.mean(warg).dissimilarities
+            with _watch(ctx, case, tag, weights=warg, rdms=fp, descriptor=fp.rdm_descriptors.get('w')):
+                got = fp.mean(warg).dissimilarities
             _judge_mean(ctx, case, tag, got, D, wref)
     elif op == 'compare':
         rowmasks = [tuple(np.flatnonzero(np.isnan(r))) for r in D]
@@ -981,13 +1245,14 @@ def _case_partials(case, ctx):
         cls = 'equal-count' if len({len(m) for m in rowmasks}) == 1 else 'different-count'
         _must_raise(ctx, case, 'compare|masks=within-stack,%s' % cls,
                     lambda: compare(fp, fp, method=method, **kwc),
-                    'compare(method=%s) of the from_partials stack of %s with itself' % (method, case['parts']))
+                    'compare(method=%s) of the from_partials stack of %s with itself' % (method, case['parts']),
+                    rdm1=fp, sigma_k=kwc.get('sigma_k'))
     elif op == 'rescale':
         tag = 'rescale|method=%s' % case['rescale']
         with ctx.guard(tag, case):
             ctx.case(case)
             try:
-                with _alarm(20):
+                with _alarm(20), _watch(ctx, case, tag, rdms=fp):
                     out = rescale(fp, method=case['rescale'], threshold=RESCALE_THRESHOLD)
             except _Timeout:
                 ctx.exclude('rescale(threshold=%g) did not terminate within 20 s' % RESCALE_THRESHOLD)
@@ -1052,7 +1317,8 @@ def _case_partials_common(case, ctx):
         keep = R.present(wa[0])
         sigma = _sigma(skind, 4, ctx.seed)
         kw = {'sigma_k': sigma} if method in WHITE else {}
-        got = compare(fa, fb, method=method, **kw)
+        with _watch(ctx, case, 'compare|' + tag, rdm1=fa, rdm2=fb, sigma_k=sigma):
+            got = compare(fa, fb, method=method, **kw)
         nt = _judge_compare(ctx, case, method, tag, got, wa[:, keep], wb[:, keep], sigma, (4, keep),
                             _cmp_tol(method, skind))
         ctx.case(case, nontrivial=bool(nt))
